@@ -16,19 +16,23 @@ CONSTANTS N,         \* number of columns
           MaxSupp,   \* at most MaxSupp non-zero entries per row
           MaxRows    \* number of rows
 
-VARIABLES M, rk      \* the matrix (sequence of rows) and the rank history
+VARIABLES M,         \* the matrix (sequence of rows)
+          rk,        \* the rank after each row
+          ker        \* integer kernel basis of M (a sequence of vectors)
 
 Pool == {v \in Box(N, Rng) : Supp(v) <= MaxSupp}
 
-Init == M = <<>> /\ rk = <<>>
+Init == M = <<>> /\ rk = <<>> /\ ker = <<>>
 AddRow(v) == /\ Len(M) < MaxRows
-             /\ M' = Append(M, v)
-             /\ rk' = Append(rk, RankOf(Append(M, v)))
+             /\ LET A == Append(M, v) IN
+                  /\ M' = A
+                  /\ rk' = Append(rk, RankOf(A))
+                  /\ ker' = SetSeq(KernelBasis(A))
 Next == \E v \in Pool : AddRow(v)
 
 Rank == IF M = <<>> THEN 0 ELSE rk[Len(rk)]
-Ker == IF M = <<>> THEN {} ELSE KernelBasis(M)
-KerSeq == SetSeq(Ker)
+Ker == {ker[i] : i \in 1..Len(ker)}
+KerSeq == ker
 
 ElimExact == M # <<>> => Elim(M).ok
 RankNullity == M # <<>> => Cardinality(Ker) = N - Rank
